@@ -330,6 +330,24 @@ namespace verif
             rep.label("burst(simultaneous claims from 4 threads)");
             desc = "[burst: " + std::to_string(burst_rounds) + " rounds x 4 threads released together] " + describe();
         }
+        // One batch in four that is not a burst (by the request count, no choice consumed) gets one more request, issued
+        // last by thread 0: a time-out of 1.6-1.9 s and a server that answers 1.12 s after it has the request - well
+        // inside the time-out, later than a whole second.  Appended, so that every other request of a saved input
+        // keeps its meaning.
+        if (burst_rounds == 0 && n % 4 == 1)
+        {
+            Req r;
+            r.tag           = "c" + std::to_string(case_no) + "long";
+            r.thread        = 0;
+            r.timeout_ms    = 1600 + 100 * int(n % 4 + (n / 4) % 3);
+            r.plan.b        = Delayed;
+            r.plan.delay_ms = 1120;
+            reqs.push_back(r);
+            ++n;
+            kinds.insert(int(Delayed));
+            rep.label("answered-inside-a-time-out-of-more-than-one-second");
+            desc += "+ " + r.tag + ":delayed 1120 ms(timeout " + std::to_string(r.timeout_ms) + "ms) ";
+        }
         std::string cfg = "client threads=" + std::to_string(cthreads) + " maxConnectionsPerHost=" + std::to_string(maxconn) + " requests=" + std::to_string(n) + " user threads=" + std::to_string(uthreads);
         rep.label("maxconn=" + std::to_string(maxconn));
         for (int k : kinds)
